@@ -136,6 +136,14 @@ class ContractMixin(CallMixin):
                 return VBool(t_or(*[v.tag == i for i, (ty, a) in enumerate(v.alts)
                                     if (canon[i] if i in canon else self.pytype_name(st, a)) == tn]))
             return VBool(self.pytype_name(st, v) == tn)
+        if name == "call_arg":
+            # call_arg("qualname", i): the i-th positional argument of the (single) call of an external function on this path
+            ok, q = pyconst(args[0])
+            ok2, i = pyconst(args[1])
+            hits = [ev for ev in st.events if ev[0] == "call" and ev[1] == q]
+            if len(hits) != 1:
+                raise Unsupported(f"call_arg({q!r}): {len(hits)} calls on this path")
+            return hits[0][2][i]
         if name == "call_result":
             # the value an external (opaque) call returned on this path: lets a postcondition talk about
             # "what the callee handed back" without assuming anything about it
